@@ -117,4 +117,120 @@ theorem div_1d (n : Nat) (h0 : Rat) (U : Nat → Rat) (c : Nat) (hc : c < n) :
   have e : ∀ k, encF (fshape [n] 0) [k] = k := by intro k; simp [fshape, encF]
   simp [netOutflow, sumTo, area, prodR, uHi, uLo, faceNum, offset, decF, unbump, Nat.mod_eq_of_lt hc, e]
 
+/-! ### grids that are one cell thick in every direction but one -/
+
+/-- all axes except `a` have extent 1 -/
+def Thin (shape : List Nat) (a : Nat) : Prop :=
+  a < shape.length ∧ ∀ b, b < shape.length → b ≠ a → shape.getD b 0 = 1
+
+/-- on a thin grid only the faces of axis `a` carry flux: the net outflow is `area_a · (u_hi − u_lo)` along `a` -/
+theorem netOutflow_thin (shape : List Nat) (h : List Rat) (U : Nat → Rat) (a c : Nat) (ht : Thin shape a)
+    (hc : c < numCells shape) :
+    netOutflow shape h U (decF shape c) =
+      area h a * (uHi shape U a (decF shape c) - uLo shape U a (decF shape c)) := by
+  unfold netOutflow
+  have hidx := decF_inBox shape c hc
+  have e : ∀ b, b < shape.length →
+      area h b * (uHi shape U b (decF shape c) - uLo shape U b (decF shape c)) =
+      if b = a then area h a * (uHi shape U a (decF shape c) - uLo shape U a (decF shape c)) else 0 := by
+    intro b hb
+    by_cases hba : b = a
+    · subst hba; simp
+    · rw [if_neg hba]
+      have h1 := ht.2 b hb hba
+      have h2 := inBox_getD_lt shape _ b hb hidx
+      unfold uHi uLo
+      rw [if_neg (by omega), if_neg (by omega)]; ring
+  rw [sumTo_congr e]
+  exact sumTo_ite_eq _ a (fun _ => area h a * (uHi shape U a (decF shape c) - uLo shape U a (decF shape c))) ht.1
+
+/-- on a thin grid every face has normal axis `a` -/
+theorem faceAxis_thin (shape : List Nat) (a g : Nat) (ht : Thin shape a) (hg : g < numFaces shape) :
+    faceAxis shape g = a := by
+  by_contra hne
+  have sp := faceAxis_spec shape g hg
+  have hb := faceIdx_inBox shape g hg
+  have h1 := ((inBox_fshape shape _ _ sp.1).1 hb).2
+  have h2 := ht.2 _ sp.1 hne
+  omega
+
+/-- a divergence-free flux on a thin grid vanishes (positive face area) -/
+theorem divfree_thin_zero (shape : List Nat) (h : List Rat) (W : Nat → Rat) (a : Nat) (ht : Thin shape a)
+    (harea : area h a ≠ 0) (hW : ∀ c, c < numCells shape → divApply shape h W c = 0) :
+    ∀ g, g < numFaces shape → W g = 0 := by
+  have ha := ht.1
+  -- per cell: upper and lower face values agree
+  have cell : ∀ idx, inBox shape idx = true → uHi shape W a idx = uLo shape W a idx := by
+    intro idx hidx
+    have hc := encF_lt shape idx hidx
+    have := hW (encF shape idx) hc
+    rw [div_is_net_outflow_aux shape h W _ hc, netOutflow_thin shape h W a _ ht hc, decF_encF _ _ hidx] at this
+    rcases mul_eq_zero.1 this with h0 | h0
+    · exact absurd h0 harea
+    · linarith
+  -- induction along the axis
+  have line : ∀ j idx, inBox (fshape shape a) idx = true → idx.getD a 0 = j → W (faceNum shape a idx) = 0 := by
+    intro j
+    induction j with
+    | zero =>
+      intro idx hb hj
+      have hin := (inBox_fshape shape idx a ha).1 hb
+      have := cell idx hin.1
+      unfold uHi uLo at this
+      rw [if_pos hin.2, if_neg (by omega)] at this
+      exact this
+    | succ j ih =>
+      intro idx hb hj
+      have hin := (inBox_fshape shape idx a ha).1 hb
+      have := cell idx hin.1
+      unfold uHi uLo at this
+      rw [if_pos hin.2, if_pos (by omega)] at this
+      rw [this]
+      have hb' : inBox (fshape shape a) (unbump idx a) = true := by
+        rw [inBox_fshape shape _ a ha]
+        have hu := inBox_unbump shape idx a ha hin.1 (by omega)
+        exact ⟨inBox_of_fshape shape _ a ha hu, by rw [getD_unbump_self]; omega⟩
+      exact ih (unbump idx a) hb' (by rw [getD_unbump_self]; omega)
+  intro g hg
+  have hax := faceAxis_thin shape a g ht hg
+  have hb := faceIdx_inBox shape g hg
+  have hnum := faceNum_faceIdx shape g hg
+  rw [hax] at hb hnum
+  rw [← hnum]
+  exact line _ _ hb rfl
+
+/-- the cost only reads the flux on existing faces -/
+theorem cost_congr (N : (Nat → Rat) → Rat) (shape : List Nat) (h : List Rat) (nq : Nat) (wq : Nat → Rat)
+    (ptq : Nat → List Rat) (wgt : List Nat → Nat → Rat) (U V : Nat → Rat)
+    (hUV : ∀ g, g < numFaces shape → U g = V g) :
+    cost N shape h nq wq ptq wgt U = cost N shape h nq wq ptq wgt V := by
+  unfold cost transportDensity
+  refine sumTo_congr fun c hc => ?_
+  have hidx := decF_inBox shape c hc
+  have hlen := decF_length shape c
+  have hi : ∀ a, uHi shape U a (decF shape c) = uHi shape V a (decF shape c) := by
+    intro a
+    unfold uHi
+    split_ifs with hlt
+    · have ha : a < shape.length := by
+        by_contra hge
+        have : shape.getD a 0 = 0 := by simp [List.getD, List.getElem?_eq_none (by omega : shape.length ≤ a)]
+        omega
+      exact hUV _ (faceNum_lt shape _ a ha ((inBox_fshape shape _ a ha).2 ⟨hidx, hlt⟩))
+    · rfl
+  have lo : ∀ a, uLo shape U a (decF shape c) = uLo shape V a (decF shape c) := by
+    intro a
+    unfold uLo
+    split_ifs with h1
+    · have ha : a < shape.length := by
+        by_contra hge
+        have : (decF shape c).getD a 0 = 0 := by
+          simp [List.getD, List.getElem?_eq_none (by omega : (decF shape c).length ≤ a)]
+        omega
+      exact hUV _ (faceNum_lt shape _ a ha (inBox_unbump shape _ a ha hidx h1))
+    · rfl
+  have cv : ∀ q, cellVec shape U wgt (ptq q) (decF shape c) = cellVec shape V wgt (ptq q) (decF shape c) := by
+    intro q; funext a; simp only [cellVec, faceToCell, hi, lo]
+  simp only [cv]
+
 end Darsia
